@@ -143,4 +143,17 @@ def asF64OrString (σ : DataConv.Std) (d : Data) (pos : Pos) : DRes (Except Str 
     then `Self::with_headers(headers)`. -/
 def withDeserializeHeaders (fields : Option (List Str)) : Headers := .custom (fields.getD [])
 
+/-! ### the builder as a value: sequences of configuration calls -/
+
+/-- `RangeDeserializerBuilder::new()` / `Default` -/
+def builderNew : Headers := .all
+
+/-- `RangeDeserializerBuilder::has_headers(&mut self, yes)`: overwrites the header mode, whatever it was (a
+    selection made by `with_headers` / `with_deserialize_headers` is dropped) -/
+def hasHeaders (_b : Headers) (yes : Bool) : Headers := if yes then .all else .none
+
+/-- a builder obtained from a constructor (`new()`, `with_headers(sel)`, `with_deserialize_headers::<T>()`) followed
+    by `has_headers` calls -/
+def builderCalls (start : Headers) (calls : List Bool) : Headers := calls.foldl hasHeaders start
+
 end De
